@@ -12,8 +12,11 @@
    [sv_fixed] is the tree after the C04 repairs, [sv_pinned] the tree before
    them (refutation witnesses).  [hmac] is HMAC-SHA256 and may be any function.
    [env]: the two lal constants the replies and the handshake embed, the
-   clock, and the upper layer's answer to OnNewRtmpPubSession /
-   OnNewRtmpSubSession.  Hypotheses on [env]:
+   clock, the upper layer's answer to OnNewRtmpPubSession /
+   OnNewRtmpSubSession, whether the configured log level is trace (RunLoop then
+   runs the payload helpers of base/t_rtmp.go on every completed message), and
+   the acknowledgement counters the session starts with (0 in production).
+   Hypotheses on [env]:
      e_install = true      an observer that accepts a publisher installs the
                            media observer (SetPubSessionObserver), as
                            logic.Group.AddRtmpPubSession does;
@@ -21,7 +24,8 @@
                            256-byte reply buffer with the rest of _result. *)
 From Lal Require Import Common.LBytes Common.Res Rtmp.RtmpChunk Rtmp.RtmpComposer Rtmp.RtmpAmf0
   Rtmp.RtmpHandshake Rtmp.RtmpSession
-  Rtmp.RtmpHandshakeProofs Rtmp.RtmpSessionProofs Rtmp.RtmpSessionPinnedProofs.
+  Rtmp.RtmpHandshakeProofs Rtmp.RtmpSessionProofs Rtmp.RtmpSessionMemProofs Rtmp.RtmpSessionPinnedProofs.
+From Lal Require Media.MediaMsgChecked.
 Open Scope N_scope.
 
 (* --- no panic ------------------------------------------------------------------ *)
@@ -74,7 +78,8 @@ Qed.
 Print Assumptions c04_only_this_conn.
 
 (* (2): handleTcpConnect always returns, and the observer calls it made form a
-   run of the specification automaton [shell_ok]: connect notifications, at most
+   run of the specification automaton [shell_ok]: connect notifications only
+   before the session has a role, at most
    one OnNewRtmpPubSession / OnNewRtmpSubSession, media only after an accepted
    publish, OnDelRtmp*Session exactly once and exactly when the matching
    OnNew was accepted, nothing afterwards *)
@@ -83,6 +88,15 @@ Theorem c04_shell_callbacks : forall hmac env input,
   exists evs, handle_tcp_connect hmac sv_fixed env input = Some evs /\ shell_ok evs = true.
 Proof. intros hmac env input H1 H2. exact (shell_good hmac env H1 H2 input). Qed.
 Print Assumptions c04_shell_callbacks.
+
+(* a connect after publish (the F-C04-4 scenario): the pinned tree accepts it and
+   notifies the upper layer about a connect on a session that already is a
+   publisher; since C20's repair of doConnect the connection is closed *)
+Theorem c04_shell_callbacks_pinned_refuted : forall hmac,
+  (exists evs, handle_tcp_connect hmac sv_pinned w_env (w_handshake ++ w_pub ++ w_conn) = Some evs /\ shell_ok evs = false) /\
+  r_out (run_session hmac sv_fixed w_env (w_handshake ++ w_pub ++ w_conn)) = OClose e_unexpected_msg.
+Proof. intro hmac. exact (pinned_connect_after_publish hmac). Qed.
+Print Assumptions c04_shell_callbacks_pinned_refuted.
 
 (* --- the pinned tree ---------------------------------------------------------------- *)
 
@@ -133,6 +147,57 @@ Proof.
         (conj (proj2 (pinned_short_user_control hmac)) (conj (proj2 (pinned_short_ping hmac)) (conj H5 H6))))).
 Qed.
 Print Assumptions c04_witnesses_closed_when_fixed.
+
+(* --- memory ------------------------------------------------------------------------ *)
+
+(* what the chunk composer's message buffers hold when the session stands still
+   (blocked reading or closed), for every input: at most 3 bytes per byte the
+   peer sent plus 8 KiB per chunk stream id it used (each costs the peer at least
+   one byte), hence never more than 8192 times the bytes received - whatever
+   message lengths and chunk sizes the peer declared.  No hypothesis on [env];
+   any variant whose composer grows its buffers with the bytes that arrive. *)
+Theorem c04_memory_bounded : forall hmac v env input,
+  sv_rv v = rv_fixed ->
+  let m := r_mem (run_session hmac v env input) in
+  mem_reserved m <= 3 * lenN input + 8192 * mem_streams m /\
+  mem_streams m <= lenN input /\
+  mem_reserved m <= 8192 * lenN input.
+Proof. intros. apply run_session_mem. assumption. Qed.
+Print Assumptions c04_memory_bounded.
+
+(* the rule before the repair (declared length reserved when the header
+   arrives; remaining length computed in uint32 without a check): 64 MiB for
+   3633 bytes, and 4 GiB in one piece after Set Chunk Size 0xFFFFFFFF and a
+   header that shrinks a message in progress; the repaired tree holds 16 KiB /
+   closes the connection *)
+Theorem c04_memory_bounded_pinned_refuted : forall hmac,
+  (let input := w_handshake ++ w_decl4 in
+   8192 * lenN input < mem_reserved (r_mem (run_session hmac sv_premem w_env input)) /\
+   mem_reserved (r_mem (run_session hmac sv_fixed w_env input)) = 16384) /\
+  4294967296 <= mem_reserved (r_mem (run_session hmac sv_premem w_env (w_handshake ++ w_shrink))) /\
+  r_out (run_session hmac sv_fixed w_env (w_handshake ++ w_shrink)) = OClose err_len_bigger.
+Proof.
+  intro hmac. destruct (premem_declared_length hmac) as (H1 & H2 & H3).
+  destruct (premem_shrinking_header hmac) as (H4 & _ & _ & H5).
+  cbv zeta in *. split; [split; [rewrite H1, H2; reflexivity|exact H3]|]. split; assumption.
+Qed.
+Print Assumptions c04_memory_bounded_pinned_refuted.
+
+(* --- trace logging ------------------------------------------------------------------- *)
+
+(* with "log": {"level": 0} RunLoop runs IsVideoKeySeqHeader / IsAacSeqHeader on
+   every completed message; before C05's repairs of those helpers an empty
+   video message or a 1-byte audio message - before any publish - indexed past
+   the payload.  [c04_no_panic] above covers [e_trace env = true] on the
+   repaired tree. *)
+Theorem c04_no_panic_pinned_refuted_trace : forall hmac,
+  r_out (run_session hmac sv_pinned w_env_trace (w_handshake ++ w_video0)) = OPanic MediaMsgChecked.s_avcsh /\
+  r_out (run_session hmac sv_pinned w_env_trace (w_handshake ++ w_audio1)) = OPanic MediaMsgChecked.s_aacsh /\
+  r_out (run_session hmac sv_fixed w_env_trace (w_handshake ++ w_video0)) = OClose e_unexpected_msg.
+Proof.
+  intro hmac. destruct (pinned_trace_logging hmac) as (H1 & H2 & H3 & _). split; [|split]; assumption.
+Qed.
+Print Assumptions c04_no_panic_pinned_refuted_trace.
 
 (* --- non-vacuity --------------------------------------------------------------------- *)
 
